@@ -2,7 +2,7 @@
 (TLC enumerates call sequences; the real class replays them; TLC judges the replies).
 
   FutureFSM       labtech.runners.process.Future
-  SmallModels     labtech.utils.LoggerFileProxy, labtech.utils.OrderedSet
+  SmallModels     labtech.utils.LoggerFileProxy, labtech.utils.OrderedSet, labtech.runners.process.ProcessMonitor
 """
 from __future__ import annotations
 
@@ -41,6 +41,8 @@ def main() -> int:
              lambda seqs: {'id': 'proxy', 'which': 'proxy', 'seqs': seqs}, ('id', 'ops', 'delivered')),
             ('SmallModels', 'SmallModels_oset_gen.cfg', 'SmallModels_oset_judge.cfg', 'lv.rigs.small',
              lambda seqs: {'id': 'oset', 'which': 'oset', 'seqs': seqs}, ('id', 'ops', 'replies')),
+            ('SmallModels', 'SmallModels_monitor_gen.cfg', 'SmallModels_monitor_judge.cfg', 'lv.rigs.small',
+             lambda seqs: {'id': 'mon', 'which': 'monitor', 'seqs': seqs}, ('id', 'ops', 'replies')),
         ]
         for args in runs:
             good, msg = _one(scratch, *args)
